@@ -37,8 +37,9 @@ def generate(tier, rng):
             op = "space"
         d = rng.randint(1, big // 3)
         if rng.random() < 0.12:
-            t = gen.shift_tier(t, -rng.randint(1, big))            # times before 0 are ordinary times here
-            if t["max"] < 0 and rng.random() < 0.4:
+            # times before 0 are ordinary times here (half of the time the whole tier lies before 0)
+            t = gen.shift_tier(t, -rng.randint(1, big) if rng.random() < 0.5 else -(t["max"] + rng.randint(1, 9)))
+            if t["max"] < 0 and rng.random() < 0.5:
                 d = -t["max"]                                       # ... and the new end may be exactly 0
         s = rng.randint(t["min"], t["max"])
         if t["entries"] and rng.random() < 0.4:
